@@ -546,7 +546,23 @@ impl Clone for %s {
         def rep(m):
             self.rules.hit('R20')
             return 'crate::vshim::read_exact_block(&mut %s, &mut %s)' % (m.group(1), m.group(2))
-        return re.sub(r'\b([a-z_][a-z0-9_]*)\.read_exact\(\s*&mut \*([a-z_][a-z0-9_]*)\s*\)', rep, txt)
+        txt = re.sub(r'\b([a-z_][a-z0-9_]*)\.read_exact\(\s*&mut \*([a-z_][a-z0-9_]*)\s*\)', rep, txt)
+        # the same call on a `&mut [u8; N]` parameter (read_block)
+        def rep2(m):
+            self.rules.hit('R20')
+            return 'crate::vshim::read_exact_arr(%s, %s)' % (m.group(1), m.group(2))
+        txt = re.sub(r'\b([a-z_][a-z0-9_]*)\.read_exact\(\s*([a-z_][a-z0-9_]*)\s*\)', rep2, txt)
+        # `E.kind() == io::ErrorKind::UnexpectedEof` -> shim predicate (io::ErrorKind is a large non-exhaustive external enum)
+        def rep3(m):
+            self.rules.hit('R20')
+            return 'crate::vshim::is_unexpected_eof(&%s)' % m.group(1)
+        txt = re.sub(r'\b([a-z_][a-z0-9_]*)\.kind\(\)\s*==\s*(?:std::)?io::ErrorKind::UnexpectedEof', rep3, txt)
+        # R21: `Instant::now() + EXPR` -> `vshim::instant_after(EXPR)`: the orphan rule forbids an `AddSpecImpl` for Instant
+        def rep4(m):
+            self.rules.hit('R21')
+            return 'crate::vshim::instant_after(%s)' % m.group(1).strip()
+        txt = re.sub(r'\bInstant::now\(\)\s*\+\s*(\*?[a-z_][a-z0-9_]*)', rep4, txt)
+        return txt
 
     def r19_zip_from(self, txt):
         # R19: `(START..).zip(ITER)` -> `vshim::zip_from(START, ITER)`: vstd has no contract for Iterator::zip / RangeFrom
